@@ -106,6 +106,7 @@ func (m *smap) len() int {
 // find returns the entry whose key equals k, deciding symbolic comparisons by
 // branching on the path state.
 func (m *smap) find(fr *frame, k value) *mentry {
+	checkHashable(fr, k)
 	if m == nil {
 		return nil
 	}
@@ -133,6 +134,30 @@ func (m *smap) find(fr *frame, k value) *mentry {
 		}
 	}
 	return nil
+}
+
+// checkHashable raises Go's "hash of unhashable type" runtime panic for a key
+// holding an interface whose dynamic type is not comparable (any map access
+// with such a key panics, also on an empty map).
+func checkHashable(fr *frame, k value) {
+	switch k := k.(type) {
+	case iface:
+		if k.t == nil {
+			return
+		}
+		if !types.Comparable(k.t) {
+			panic(targetPanic{v: iface{t: fr.i.runtimeErrorString, v: "hash of unhashable type " + k.t.String()}, rt: true})
+		}
+		checkHashable(fr, k.v)
+	case structure:
+		for _, f := range k {
+			checkHashable(fr, f)
+		}
+	case array:
+		for _, f := range k {
+			checkHashable(fr, f)
+		}
+	}
 }
 
 func (m *smap) lookup(fr *frame, k value) (value, bool) {
